@@ -80,6 +80,18 @@ def run(tier, rnd, out):
                 except Exception: return "raised"
             a = enc(obj); b = enc(obj)
             same.append(a if (a == b and (list(obj) if mk is list else set(obj)) == before) else "first %s, again %s, argument now %s" % (a, b, sorted(DAYS.index(d) for d in obj)))
+    # ... and the same object changed in place by the caller between two encodings: the second mask is that of the new content
+    changed = []; cases3 = []
+    for l in subs_:
+        for mk in (set, list):
+            obj = mk(DAYS[i] for i in l); enc(obj)
+            extra = rnd.choice([d for d in range(7) if d not in l] or [None])
+            if extra is None: (obj.discard if mk is set else obj.remove)(DAYS[l[0]]); now_ = [d for d in l if d != l[0]]
+            else: (obj.add if mk is set else obj.append)(DAYS[extra]); now_ = sorted(l + [extra])
+            changed.append(enc(obj) if now_ else "raised" if enc(obj) == "raised" else enc(obj)); cases3.append({"first": l, "then": now_, "as": mk.__name__})
+    lib.differential(out, "argument-object-changed-between-two-encodings", cases3, changed, None,
+                     [lib.run_model([lib.req("weekdays_spec", 1, c["then"])])[0] for c in cases3],
+                     lambda c: "one %s object encoded as %s, changed in place to %s, encoded again" % (c["as"], c["first"], c["then"]), sample=lambda c: c)
     cases2 = [{"days": l, "as": n} for l in subs_ for n in ("set", "list")]
     lib.differential(out, "same-argument-object-encoded-twice", cases2, same, None,
                      [x for l in subs_ for x in lib.run_model([lib.req("weekdays_spec", 1, l)]) * 2], lambda c: "one %s object of days %s encoded twice" % (c["as"], c["days"]), sample=lambda c: c)
